@@ -11,7 +11,8 @@ cd $W || exit 9
 export CARGO_NET_OFFLINE=true
 test -f seed/patch.diff || { echo "RESULT: no patch"; exit 1; }
 # normalise: clean tree, then apply the delivered patch
-git stash push -q -- rust/src >/dev/null 2>&1; git checkout -q -- rust/src
+# (no git stash: the stash is shared by all worktrees of /repo)
+git checkout -q -- rust/src
 # verify against /repo's current HEAD (the scratch tree may have been created from an older commit)
 git checkout -q --detach $(git -C /repo rev-parse HEAD) || { echo "RESULT: cannot checkout HEAD"; exit 1; }
 echo "verifying at $(git rev-parse --short HEAD)"
